@@ -14,7 +14,7 @@ Definition open_tag (a : asite) : Z :=
 
 (* the site violates the declared discipline of its variable *)
 Definition site_fails (a : asite) : bool :=
-  match find_var vars (a_var a) with
+  match lookup_var vars (a_var a) with
   | None => false
   | Some e => negb (site_ok e a) && negb (allowed allow a)
   end.
